@@ -256,3 +256,35 @@ Proof.
   change (l_state (ring_push r tilde_state)) with LNormal.
   cbv iota. rewrite Hr. reflexivity.
 Qed.
+
+Lemma lex_text_after : forall p s tok t,
+  lex_all init_lstate p = LOk s -> after_prefix s tok ->
+  lex_text (p ++ t) = (tok :: fst (lex_text t), snd (lex_text t)).
+Proof.
+  intros p s tok t Hp Ha. unfold lex_text. rewrite lex_all_app, Hp.
+  destruct (after_prefix_tokens s tok t Ha) as [E1 E2]. cbn [fst snd]. rewrite E1, E2. reflexivity.
+Qed.
+
+Theorem sugar_tokens : forall t,
+  lex_text (37 :: t) = (mkTok TQuote [] :: fst (lex_text t), snd (lex_text t)) /\
+  lex_text (94 :: t) = (mkTok TCaret [] :: fst (lex_text t), snd (lex_text t)) /\
+  lex_text (126 :: 64 :: t) = (mkTok TTildeAt [] :: fst (lex_text t), snd (lex_text t)) /\
+  (forall r, r <> 64 ->
+     lex_text (126 :: r :: t) = (mkTok TTilde [] :: fst (lex_text (r :: t)), snd (lex_text (r :: t)))).
+Proof.
+  intros t. split; [|split; [|split]].
+  - apply (lex_text_after [37] _ _ t (eq_refl : lex_all init_lstate [37] = LOk _) after_percent).
+  - apply (lex_text_after [94] _ _ t (eq_refl : lex_all init_lstate [94] = LOk _) after_caret).
+  - apply (lex_text_after [126; 64] _ _ t (eq_refl : lex_all init_lstate [126; 64] = LOk _) after_tilde_at).
+  - intros r Hr. assert ((r =? 64) = false) as Hr' by (apply Z.eqb_neq; exact Hr).
+    unfold lex_text.
+    change (lex_all init_lstate (126 :: r :: t))
+      with (match lex_rune init_lstate 126 with
+            | LOk s' => match lex_rune s' r with LOk s2 => lex_all s2 t | LErr s2 => LErr s2 end
+            | LErr s' => LErr s' end).
+    assert (lex_rune init_lstate 126 = LOk (lres_state (lex_rune init_lstate 126))) as -> by (vm_compute; reflexivity).
+    rewrite (tilde_step r Hr').
+    change (match lex_rune tilde_state r with LOk s2 => lex_all s2 t | LErr s2 => LErr s2 end) with (lex_all tilde_state (r :: t)).
+    destruct (after_prefix_tokens tilde_state (mkTok TTilde []) (r :: t) after_tilde) as [E1 E2].
+    cbn [fst snd]. rewrite E1, E2. reflexivity.
+Qed.
